@@ -259,7 +259,9 @@ pub fn build(quick: bool) -> PropRun {
     let plans: Vec<(bool, usize)> = if quick { vec![(false, 5), (true, 3)] } else { vec![(false, 6), (true, 4)] };
     let mut all_units = units(&plans, false);
     all_units.extend(loss_units(if quick { 7 } else { 9 }, false));
-    PropRun { level: "model_checking", scenarios: vec![], units: all_units, replay_case: Some(replay_case), summary: Summary {
+    // on the link: the shared pool of the link world with the RTT sample clause
+    let scs = crate::props::from_pool(quick, "C14", crate::lwprops::O_C14RTT);
+    PropRun { level: "model_checking", scenarios: scs, units: all_units, replay_case: Some(replay_case), summary: Summary {
         rule: "every sequence of events {frame sent; step with feedback f; step without feedback after gap g} up to the stated length over the boundary alphabet is applied to a fresh real SendRateComp (3 ceilings); after every event rate and RTT estimate are compared with bounds from the RFC 5348 formulas; distinct = distinct final (rate, RTO) trajectory hash".into(),
         bounds: json!({"plans(full_alphabet,length)": plans, "reduced_alphabet": format!("{} letters", alphabet(false).len()), "full_alphabet": format!("{} letters: rtt {{0,1,100,3000}} ms x receive rate {{0,1000,1e6,2^32-1}} x loss {{0,1e-4,0.1,1}} x rate_limited x gap {{1,100}} ms; silence {{0,1,100,5000,1e6}} ms; frame sent; long silences while transmitting (14 x 5 s, 40 x 1000 s, every step checked)", alphabet(true).len()), "ceilings": [1472, 10_000, "2^32-1"]}),
         assumptions: vec!["the loss event rate in force after the step that leaves slow start is the value handed to the reset_loss_rate callback (5 % tolerance of the code's own inverse plus 1 %), the reported value afterwards".into(),
